@@ -82,10 +82,10 @@ def plan(tier):
     # direct calls produce (measured with VERIF_BYPASS_INTERNAL=1, i.e. with the monitors blind to calls made from inside the cryocat
     # package), so the effective floor is ~80% of the driver-only count and holds whatever cryoCAT's internal call structure is.
     if tier == "quick":
-        return dict(n_cases=1380, shards=1, classes=CLASSES, timeout_s=900,
-                    min_evals={"angdist": 21900, "cone": 11600, "inplane": 13100, "cone_inplane": 14300, "compare": 18800,
-                               "e2n": 8700, "n2e": 3050, "viz": 11600, "symmetry": 1470, "zero_equal": 17000, "invariance": 2900,
-                               "triangle": 1470, "dispatch": 5900, "n2e_roundtrip": 1530, "history": 10800})
+        return dict(n_cases=1150, shards=1, classes=CLASSES, timeout_s=900,
+                    min_evals={"angdist": 18300, "cone": 9700, "inplane": 11000, "cone_inplane": 12000, "compare": 15700,
+                               "e2n": 7300, "n2e": 2570, "viz": 9600, "symmetry": 1230, "zero_equal": 14300, "invariance": 2450,
+                               "triangle": 1230, "dispatch": 4950, "n2e_roundtrip": 1280, "history": 9000})
     return dict(n_cases=16000, shards=16, classes=CLASSES, timeout_s=3000,
                 min_evals={"angdist": 251000, "cone": 133000, "inplane": 150000, "cone_inplane": 166000, "compare": 216000,
                            "e2n": 101000, "n2e": 35500, "viz": 134000, "symmetry": 16700, "zero_equal": 198000,
